@@ -47,6 +47,27 @@ C['C07'] = dict(cat='model_checking', tech=MC,
     text="All schedules within a deviation bound (quick d<=1, thorough d<=2) of a non-plain dcat session over 1-3 in-process servers x 1-2 files x 1-2 lines (plus 40000/70000-byte lines spanning several transport reads), the stdout logger's lock included as branching point; oracle: every output line is one whole correctly attributed REMOTE record, per source gap-free increasing line numbers.",
     ref="DESIGN.md 3.1, 3.2, 4 (C07)")
 
+C['C06'] = dict(cat='model_checking', tech=MC,
+    text="All schedules within a deviation bound (quick: d<=2 on two scenarios, d<=1 on three; thorough d<=2) of complete dmap runs: real MaprClient, one in-process server per server-list entry (map command, read commands behind the cat limiter, server Aggregate), per-server client handlers, GlobalGroupSet, final outfile; oracle: final count and sum per key == totals over all files of all servers, exit status 0, termination.",
+    ref="DESIGN.md 3.1, 3.2, 4 (C06)")
+C['C08'] = dict(cat='exploration', tech=BE,
+    text="All ordered rule lists of length <=3/<=4 over 11 rules (allow, deny, bare rules with ':', typed, foreign type; default and per-user) x 24 requested paths over a real tree with every symlink kind, FIFO, directory, device; verdict of HasFilePermission compared in both directions with an independent reference, plus end-to-end cat sessions (paths and globs) delivering exactly the allowed content.",
+    ref="DESIGN.md 3.3, 4 (C08)")
+C['C09'] = dict(engine='native-ssh', cat='exploration', tech="bounded exhaustive enumeration of authorized_keys files, credentials and configurations against the real callbacks, plus real SSH handshakes against an in-process server (native build)",
+    text="All authorized_keys files of <=3/<=4 lines over 11 line kinds x offered keys through the real verifyAuthorizedKeys; the full product user x password x source address x job configuration through the real password callback; real SSH handshakes and real health sessions (8 commands) against an in-process server.",
+    ref="DESIGN.md 3.3, 3.5, 4 (C09)",
+    note="Native build (no rewriting): real goroutines and loopback sockets. Trusted: x/crypto/ssh (proof of key possession), the kernel. Waiting is by positive protocol events; no timing oracle.")
+C['C14'] = dict(engine='native-ssh', cat='model_checking', tech="explicit-state breadth-first search over connection-event histories, every transition replayed against a fresh real SSH server (reference model = a counter)",
+    text="Breadth-first search over histories of connection events (connect, 4 kinds of handshake, channels, shell requests, command, abrupt close, normal end) of three connections against a real in-process server with MaxConnections 2, de-duplicated by model state, depth 7 (quick) / 9 (thorough); after every event the reported connection count must equal the number actually open, never more than MaxConnections are served, and connects are refused/accepted as the free slots dictate.",
+    ref="DESIGN.md 3.5, 4 (C14)",
+    note="Native build: x/crypto/ssh and loopback TCP run free; the harness controls only the order of client-side events and synchronises on positive protocol events; a mismatch must persist for 10 s. Trusted: x/crypto/ssh, the kernel.")
+C['C15'] = dict(cat='fault_enumeration', tech="exhaustive crash-point enumeration: explicit-state search over file-system states, the real WriteResult killed before every mutating file-system operation of every run of every history",
+    text="From {no files, a complete earlier outfile} every run variant (replace/append x result set x interim report) is executed on the real GlobalGroupSet.WriteResult over a recording file system, to completion and killed before every mutating operation; states de-duplicated and expanded to histories of 2/3 runs; the half-written / header-once / rows-preserved / .query invariants are evaluated on every state.",
+    ref="DESIGN.md 3.4, 4 (C15)")
+C['C17'] = dict(cat='model_checking', tech=MC + " combined with exhaustive enumeration of known-hosts files, contacted hosts and answers",
+    text="All known-hosts files of <=2/<=3 lines over 10 line kinds x contacted host sets x 7 answers + trust-all; the real host-key callbacks run as goroutines against the real prompt loop under the controlled scheduler (all schedules with <=1 deviation); oracle: proceed iff knownhosts accepts or the user approved or trust-all; refused hosts are reported untrusted; rewritten file keeps unrelated entries intact.",
+    ref="DESIGN.md 3.1-3.3, 4 (C17)")
+
 PENDING = "check not built yet in this session (work in progress; see DESIGN.md section 4)"
 checks = []
 for pid in sorted(C):
@@ -57,7 +78,7 @@ for pid in sorted(C):
         "thorough_cmd": f"bin/check {pid} thorough",
         "evidence_file": f"/verif/evidence/{pid}.json",
         "replay_cmd_template": "bin/check replay {path}",
-        "engine": "vrt-explorer",
+        "engine": c.get('engine', "vrt-explorer"),
         "level_claimed": {"category": c['cat'], "text": c['text'], "design_ref": c['ref']},
         "level_note": c.get('note', TRUST),
         "technique": c['tech'],
@@ -74,7 +95,9 @@ m = {
         "add_only": True,
     },
     "engines": [
-        {"name": "vrt-explorer", "path": "/verif/engine", "serves_properties": sorted(C),
+        {"name": "native-ssh", "path": "/verif/engine/nharness", "serves_properties": ["C09", "C14"],
+         "kind_free_text": "native build of dtail (only verif-tagged accessor files added): explicit-state BFS over connection histories and exhaustive credential enumeration against a real in-process SSH server on loopback"},
+        {"name": "vrt-explorer", "path": "/verif/engine", "serves_properties": sorted(k for k in C if k not in ("C09", "C14")),
          "kind_free_text": "source-to-source rewriter (/verif/rewrite: chan/select/go/sync/time/context/os -> vrt controlled runtime, applied at check time through go build -overlay) + deviation-bounded stateless DFS explorer over schedules and environment choices + bounded-exhaustive input drivers; 16 worker processes"},
     ],
     "checks": checks,
